@@ -88,6 +88,15 @@ def dec_index(e):
         return list(e["v"])
     if k == "a":
         return np.array(e["v"], dtype=object) if e["v"] and isinstance(e["v"][0], str) else np.array(e["v"])
+    if k == "ns":       # the same scalar as a NumPy scalar
+        v = e["v"]
+        return np.str_(v) if isinstance(v, str) else (np.float64(v) if isinstance(v, float) else np.int64(v))
+    if k == "au":       # string labels as a NumPy unicode array rather than an object array
+        return np.array(e["v"])
+    if k == "r":        # positions as a range
+        return range(*e["v"])
+    if k == "ml":       # a boolean mask as a plain list
+        return [bool(x) for x in e["v"]]
     if k == "m":
         return np.array(e["v"], dtype=bool)
     if k == "sl":
@@ -128,7 +137,7 @@ def gen_label_index(rng, labs, allow_absent=True):
     if n == 0:
         return {"k": "all"} if r < 0.7 else {"k": "l", "v": []}
     if r < 0.30:
-        return {"k": "s", "v": rng.choice(labs)}
+        return {"k": "s" if rng.random() < 0.85 else "ns", "v": rng.choice(labs)}
     if r < 0.36 and allow_absent:
         return {"k": "s", "v": absent_label(rng, labs)}
     if r < 0.56:
@@ -136,9 +145,9 @@ def gen_label_index(rng, labs, allow_absent=True):
         return {"k": "l", "v": [rng.choice(labs) for _ in range(m)]}
     if r < 0.62:
         m = rng.randint(1, 3) if n <= 6 or rng.random() < 0.6 else rng.randint(4, n)
-        return {"k": "a", "v": [rng.choice(labs) for _ in range(m)]}
+        return {"k": "au" if isinstance(labs[0], str) and rng.random() < 0.4 else "a", "v": [rng.choice(labs) for _ in range(m)]}
     if r < 0.74:
-        return {"k": "m", "v": [rng.random() < 0.5 for _ in range(n)]}
+        return {"k": "m" if rng.random() < 0.8 else "ml", "v": [rng.random() < 0.5 for _ in range(n)]}
     if r < 0.90:
         a, b = rng.choice(labs + [None]), rng.choice(labs + [None])
         st = rng.choice([None, None, 2, -1])
@@ -151,12 +160,15 @@ def gen_pos_index(rng, n):
     if n == 0:
         return {"k": "all"}
     if r < 0.3:
-        return {"k": "s", "v": rng.randint(-n, n - 1)}
+        return {"k": "s" if rng.random() < 0.85 else "ns", "v": rng.randint(-n, n - 1)}
+    if r < 0.34:
+        a = rng.randint(0, n - 1)
+        return {"k": "r", "v": [a, rng.randint(a, n)] + ([2] if rng.random() < 0.3 else [])}
     if r < 0.5:
         m = rng.randint(0, 3) if n <= 6 or rng.random() < 0.6 else rng.randint(4, n)
         return {"k": "l", "v": [rng.randint(-n, n - 1) for _ in range(m)]}
     if r < 0.62:
-        return {"k": "m", "v": [rng.random() < 0.5 for _ in range(n)]}
+        return {"k": "m" if rng.random() < 0.8 else "ml", "v": [rng.random() < 0.5 for _ in range(n)]}
     if r < 0.88:
         return {"k": "sl", "v": [rng.choice([None, 0, 1, -1]), rng.choice([None, n, 1, -1]), rng.choice([None, None, 2, -1])]}
     return {"k": "all"}
